@@ -118,7 +118,7 @@ Definition step_clock_fixed (s : ostate) (t : Z) (off : Z) : outcome (ostate * Z
     applied to /repo replace [step_clock_current] by [step_clock_fixed];
     Clock/OverlayLemmas.v ([step_clock_ok]) and Properties/C18.v compile
     unchanged with either choice. *)
-Definition step_clock := step_clock_current.
+Definition step_clock := step_clock_fixed.
 
 (** * Operation sequences *)
 Inductive oop :=
